@@ -11,7 +11,9 @@
    Ghost `model`: the plain keyed map key -> <<val, ts>> that C16 is about.    *)
 EXTENDS Integers, Sequences, FiniteSets, TLC
 
-CONSTANTS Keys, Vals, MaxTs, Thresh
+CONSTANTS Keys, Vals, MaxTs, Thresh,
+          KeepTs   \* the table without a sort column: its merge keeps the timestamp of the row it replaces
+                   \* (a merge whose output differs from both operands); FALSE = the table sorted by ts
 
 VARIABLES data,    \* Seq of [k, v, t, stale]
           hash,    \* [Keys -> 0 .. Len(data)], 0 = absent
@@ -31,7 +33,8 @@ ApplyIns(m, ops, i) ==
   IF i > Len(ops) THEN m
   ELSE LET o == ops[i] IN
        IF o.op # "ins" THEN ApplyIns(m, ops, i + 1)
-       ELSE IF m[o.k] = None \/ o.v > m[o.k][1] THEN ApplyIns([m EXCEPT ![o.k] = <<o.v, o.t>>], ops, i + 1)
+       ELSE IF m[o.k] = None THEN ApplyIns([m EXCEPT ![o.k] = <<o.v, o.t>>], ops, i + 1)
+       ELSE IF o.v > m[o.k][1] THEN ApplyIns([m EXCEPT ![o.k] = <<o.v, IF KeepTs THEN m[o.k][2] ELSE o.t>>], ops, i + 1)
        ELSE ApplyIns(m, ops, i + 1)
 Removed(ops) == {ops[i].k : i \in {j \in 1 .. Len(ops) : ops[j].op = "rem"}}
 ApplyOps(m, ops) == ApplyIns([k \in DOMAIN m |-> IF k \in Removed(ops) THEN None ELSE m[k]], ops, 1)
@@ -53,7 +56,7 @@ DoInsert(d, h, ops, i) ==
        ELSE IF h[o.k] = 0
             THEN DoInsert(Append(d, [k |-> o.k, v |-> o.v, t |-> o.t, stale |-> FALSE]), [h EXCEPT ![o.k] = Len(d) + 1], ops, i + 1)
        ELSE IF o.v > d[h[o.k]].v      \* the merge function reports a change: new row, old one stale
-            THEN DoInsert(Append([d EXCEPT ![h[o.k]].stale = TRUE], [k |-> o.k, v |-> o.v, t |-> o.t, stale |-> FALSE]),
+            THEN DoInsert(Append([d EXCEPT ![h[o.k]].stale = TRUE], [k |-> o.k, v |-> o.v, t |-> IF KeepTs THEN d[h[o.k]].t ELSE o.t, stale |-> FALSE]),
                           [h EXCEPT ![o.k] = Len(d) + 1], ops, i + 1)
        ELSE DoInsert(d, h, ops, i + 1)
 
@@ -118,7 +121,7 @@ ScanIsModel ==        \* live rows are returned once, removed or superseded rows
   /\ \A i \in LiveIdx(data) : model[data[i].k] = <<data[i].v, data[i].t>>
   /\ \A k \in Keys : model[k] # None => \E i \in LiveIdx(data) : data[i].k = k
   /\ Cardinality(LiveIdx(data)) = Cardinality({k \in Keys : model[k] # None})
-SortedByTs == \A i, j \in 1 .. Len(data) : i < j => data[i].t <= data[j].t
+SortedByTs == KeepTs \/ \A i, j \in 1 .. Len(data) : i < j => data[i].t <= data[j].t
 StaleBounded == pend = <<>> => NStale(data) <= Max2(Thresh, Len(data) \div 2)
 \* the version changes whenever a row is added or rewritten (removals only mark rows stale:
 \* readers filter them by liveness, the version is that of the append-only buffer)
